@@ -27,10 +27,14 @@ EntryMatches(s, t, lk) ==
                      /\ s.attr = AttrOf(t, lk, s.p)
                      /\ s.link = t[s.p].link
                      /\ s.cnt = CntOf(t, lk, s.p)
+(* every snapshot entry carries what ListEntries showed and, under lk, what LookupDirectoryEntry showed *)
 SnapOK(snap, t, lk) ==
   /\ Cardinality(DOMAIN snap) = Cardinality(DOMAIN t)
   /\ {snap[i].p : i \in DOMAIN snap} = DOMAIN t
-  /\ \A i \in DOMAIN snap : EntryMatches(snap[i], t, lk)
+  /\ \A i \in DOMAIN snap :
+        /\ EntryMatches(snap[i], t, lk)
+        /\ EntryMatches([p |-> snap[i].p, kind |-> snap[i].lk.kind, chunks |-> snap[i].lk.chunks, attr |-> snap[i].lk.attr,
+                         link |-> snap[i].lk.link, cnt |-> snap[i].lk.cnt], t, lk)
 KvOK(kv, lk) ==
   /\ Cardinality(DOMAIN kv) = Cardinality(DOMAIN lk)
   /\ {kv[i].id : i \in DOMAIN kv} = DOMAIN lk
@@ -72,12 +76,12 @@ TCreate == /\ IsEvent("create")
            /\ LET p == Ev.p
                   e == [kind |-> Ev.kind, chunks |-> SeqSet(Ev.chunks), attr |-> Ev.attr]
               IN \E o \in CreateOuts(p, e) :
-                   Judge(o, TRUE, TaintBy(p, e.chunks), ShownBy(p) \ e.chunks, SharedWithNames(p) \ e.chunks, D5, {}, nextLid)
+                   Judge(o, TRUE, TaintByFresh(p, e.chunks), ShownBy(p) \ e.chunks, SharedWithNames(p) \ e.chunks, D5, {}, nextLid)
 TUpdate == /\ IsEvent("update")
            /\ LET p == Ev.p
                   e == [kind |-> Ev.kind, chunks |-> SeqSet(Ev.chunks), attr |-> Ev.attr]
               IN \E o \in UpdateOuts(p, e) :
-                   Judge(o, TRUE, TaintBy(p, e.chunks), ShownBy(p) \ e.chunks, SharedWithNames(p) \ e.chunks, D5, {}, nextLid)
+                   Judge(o, TRUE, TaintByFresh(p, e.chunks), ShownBy(p) \ e.chunks, SharedWithNames(p) \ e.chunks, D5, {}, nextLid)
 TWrite == /\ IsEvent("write")
           /\ LET p == Ev.p
                  c == SeqSet(Ev.chunks)
